@@ -83,7 +83,7 @@ class Engine:
         self.site = []                # call-site stack for obligation naming
         self.dry = False
         self.cur_target = None
-        self.feas_timeout = int(os.environ.get("PYVC_FEAS_MS", "500"))
+        self.feas_timeout = int(os.environ.get("PYVC_FEAS_MS", "1500"))
         self.callee_hashes = {}
         for sn in SENTINELS:
             CLS.add(sn, ("object",))         # the falsy sentinel classes: registered up front so that truthiness
